@@ -4,6 +4,7 @@
 mod model;
 mod docgen;
 mod c02;
+mod c03;
 
 use std::collections::HashMap;
 
@@ -47,6 +48,7 @@ fn main() {
     std::panic::set_hook(Box::new(|_| {}));
     let rc = match argv[1].as_str() {
         "c02" => c02::run(&args),
+        "c03" => c03::run(&args),
         other => {
             eprintln!("unknown command {other}");
             2
